@@ -173,6 +173,10 @@ def scenario(sim: Sim) -> None:
 
         async def observed_delay(iteration: int) -> None:
             restarting[0] = iteration > 0
+            if iteration > len(api.failure_times):
+                # every restart must be explained by an API failure the harness injected
+                sim.violation("liveness", {"what": "actor run logic failed and restarted without an injected fault"},
+                              f"restart #{iteration} at t={sim.now_us} us, injected API failures so far: {len(api.failure_times)}")
             try:
                 await orig_delay(iteration)
             finally:
